@@ -29,6 +29,11 @@ NONPASS = OUTCOMES[1:] + ("convert",)     # the default deviation alphabet of ev
 #   StepNotImplementedError) -> error;   kbiS = raises a subclass of KeyboardInterrupt -> like kbi
 BASE = {"failS": "fail", "pendingS": "pending", "errorN": "error", "kbiS": "kbi"}
 CLASS_VARIANTS = tuple(BASE)
+# outcomes produced THROUGH Context.execute_steps(): the step delegates to a nested step (documented: a failing nested
+# step surfaces as AssertionError in the caller, i.e. the calling step is `failed` whatever the nested failure was);
+# x2fail nests two levels deep
+EXEC_VARIANTS = ("xpass", "xfail", "xerror", "x2fail")
+BASE.update({"xpass": "pass", "xfail": "fail", "xerror": "fail", "x2fail": "fail"})
 PTAG = "<tg>"          # parametrised outline tag; the row supplies the value in column "tg"
 
 
